@@ -243,7 +243,21 @@ def run(tier, seed):
         rec = r
         if rec["fail"]:
             c.fail("family %r: %s" % (rec["name"], rec["fail"]), {"family": rec["name"]})
-        for p in judge(rec):
+        probs = judge(rec)
+        if probs and all(p.startswith("C t") for p in probs):
+            # CPU time is the only complaint: measure this family again, alone (the first pass runs 14 families at
+            # once), and keep the smaller time per size; only a complaint that survives is reported
+            for _attempt in range(3):
+                again = vlib.robust_map(family_run, [job], chunk=1, timeout=600, procs=1)[0]
+                if isinstance(again, tuple) and again and again[0] in ("CRASH", "TIMEOUT", "PYEXC"):
+                    break
+                best = {n: t for (n, _l, t) in again["c"]}
+                rec["c"] = [(n, l, min(t, best.get(n, t))) for (n, l, t) in rec["c"]]
+                probs = judge(rec)
+                c.notes.setdefault("remeasured", []).append(rec["name"])
+                if not probs:
+                    break
+        for p in probs:
             c.fail("family %r: %s" % (rec["name"], p), {"family": rec["name"], "python": rec["py"], "c": rec["c"]})
         if any(n >= 64 for (n, *_r) in rec["py"]):
             nontrivial += 1
